@@ -45,4 +45,85 @@ theorem eval_mapSk (s : MapShape) (v : Val) : (mapSk s).eval v = mapAtoms s v :=
   · rw [eval_emptiesSk]; rfl
   · rfl
 
+/-! ### relational agreement (`relTree`, `tpfpAdmits`) -/
+
+theorem eval_mapTree {β γ : Type} (f : β → γ) (v : Val) : ∀ t : DTree β, (mapTree f t).eval v = f (t.eval v) := by
+  intro t
+  induction t with
+  | leaf r => rfl
+  | ite a f' t ihf iht =>
+    simp only [mapTree, DTree.eval]
+    split <;> assumption
+  | cmp a l e g ihl ihe ihg =>
+    simp only [mapTree, DTree.eval]
+    split <;> assumption
+
+theorem eval_relTree {α β : Type} (rel : α → β → Bool) (v : Val) (m : DTree β) :
+    ∀ c : DTree α, (relTree rel c m).eval v = rel (c.eval v) (m.eval v) := by
+  intro c
+  induction c with
+  | leaf r => exact eval_mapTree (rel r) v m
+  | ite a f t ihf iht =>
+    simp only [relTree, DTree.eval]
+    split <;> assumption
+  | cmp a l e g ihl ihe ihg =>
+    simp only [relTree, DTree.eval]
+    split <;> assumption
+
+theorem eval_kindsTree (pat : List Nat) (v : Val) : (kindsTree pat).eval v = (sortIdx pat).map (kindAtoms v) := by
+  unfold kindsTree
+  rw [eval_kindsSk]
+  rfl
+
+/-- a relational table check is sound: if `relTree rel code model` agrees with `.leaf true`, then on every consistent
+valuation the code's leaf is related to the model's -/
+theorem relTree_sound {α β : Type} (rel : α → β → Bool) (code : DTree α) (m : DTree β)
+    (h : agree PVal.empty (relTree rel code m) (.leaf true) = true) (v : Val) (hc : v.consistent) :
+    rel (code.eval v) (m.eval v) = true := by
+  have := agree_sound v hc (.leaf true) (relTree rel code m) PVal.empty h (sat_empty v)
+  rw [eval_relTree] at this
+  exact this
+
+theorem ignFlex_of_no_ign : ∀ ks : List K, (∀ k ∈ ks, k ≠ .ign) → ignFlex ks = [ks] := by
+  intro ks
+  induction ks with
+  | nil => intro _; rfl
+  | cons k ks ih =>
+    intro h
+    have hk : k ≠ .ign := h k (by simp)
+    have ih' := ih fun x hx => h x (by simp [hx])
+    cases k with
+    | ign => exact absurd rfl hk
+    | tp j => simp [ignFlex, ih']
+    | fp => simp [ignFlex, ih']
+
+/-- a pattern without ties admits no rearrangement of the ranking (all tabulated shapes; kernel evaluation) -/
+theorem tiePerms_of_strict : ∀ s ∈ tpfpShapes, strictPat s.1 = true → tiePerms s.1 = [List.range s.1.length] := by
+  decide +kernel
+
+theorem map_getD_range {α : Type} (d : α) : ∀ l : List α, (List.range l.length).map (l.getD · d) = l := by
+  intro l
+  apply List.ext_getElem
+  · simp
+  · intro i h1 h2
+    simp at h1
+    simp [List.getD_eq_getElem?_getD, h1]
+
+/-- WHERE THE TEXT LEAVES NO CHOICE (no tie among the confidences, no ignored result) an admitted leaf IS the model's leaf -/
+theorem tpfpAdmits_pinned (pat : List Nat) (G : Nat) (hs : (pat, G) ∈ tpfpShapes) (hne : pat ≠ []) (hst : strictPat pat = true)
+    (c : Except String TpFp) (ks : List K) (hlen : ks.length = pat.length) (hno : ∀ k ∈ ks, k ≠ .ign)
+    (h : tpfpAdmits pat G c ks = true) : c = .ok (leafOfKinds G ks) := by
+  unfold tpfpAdmits at h
+  cases c with
+  | error e => simp at h
+  | ok leaf =>
+    have hE : pat.isEmpty = false := by cases pat <;> simp at hne ⊢
+    have hv : tpfpVariants pat ks = [ks] := by
+      unfold tpfpVariants
+      rw [tiePerms_of_strict (pat, G) hs hst]
+      simp only [List.flatMap_cons, List.flatMap_nil, List.append_nil]
+      rw [← hlen, map_getD_range, ignFlex_of_no_ign ks hno]
+    simp only [hE, Bool.false_or, hv, List.any_cons, List.any_nil, Bool.or_false, decide_eq_true_eq] at h
+    rw [h]
+
 end PEval.APDT
